@@ -51,7 +51,7 @@ def replay(case, inputs, cand=None):
 
 
 def validate(E, seed, tier):
-    cs = [c for c in cases("quick", seed) if not c.get("inductive")]
+    cs = [c for c in cases("quick", seed) if not c.get("inductive") and not c.get("via")]
     return F.validate_cases(E, cs, seed, 60 if tier == "quick" else 200)
 
 
